@@ -5,5 +5,8 @@ package main
 var syncShimInstalled bool
 var syncShimOps = func() int64 { return 0 }
 
+// syncShimRealWaiters: goroutines parked in real sync primitives of the library (outside any controlled execution)
+var syncShimRealWaiters = func() int64 { return 0 }
+
 // shimSelftest (set by shimtest_vsync.go): scheduler + shim on programs with a known answer.
 var shimSelftest func() (string, int64)
